@@ -1,2 +1,526 @@
+// mode=funcs: compact JSON export of every function / class / variable that is
+// *defined in /repo* - template patterns and their instantiations - with callees,
+// template arguments and integer constants resolved by clang.  All rule checkers
+// (engine/*.py) run on this export; nothing here decides a property.
 #include "manif_sa.h"
-void msa::runFuncs(Ctx &X, llvm::json::Object &Root) {}
+#include "clang/AST/ExprCXX.h"
+#include "clang/AST/StmtCXX.h"
+#include "clang/AST/DeclTemplate.h"
+
+using namespace clang;
+using namespace msa;
+namespace json = llvm::json;
+
+namespace {
+
+struct Dumper {
+  Ctx &X;
+  std::map<std::string, int> typeIdx;
+  json::Array types;
+  std::map<const Decl *, int> declIdx;
+  std::map<const Type *, std::pair<int, int>> dimCache;
+  explicit Dumper(Ctx &X) : X(X) {}
+
+  int declId(const Decl *D) {
+    if (!D) return -1;
+    D = D->getCanonicalDecl();
+    auto It = declIdx.find(D);
+    if (It != declIdx.end()) return It->second;
+    int I = (int)declIdx.size();
+    declIdx[D] = I;
+    return I;
+  }
+  int typeId(QualType T) {
+    std::string S = X.typeStr(T);
+    auto It = typeIdx.find(S);
+    if (It != typeIdx.end()) return It->second;
+    int I = (int)types.size();
+    typeIdx[S] = I;
+    types.push_back(S);
+    return I;
+  }
+
+  // ---- Eigen fixed-size dimensions of a type ------------------------------------
+  static bool enumVal(const CXXRecordDecl *RD, llvm::StringRef Name, int &Out, int depth = 0) {
+    if (!RD || depth > 8) return false;
+    RD = RD->getDefinition();
+    if (!RD) return false;
+    for (const Decl *D : RD->decls())
+      if (const auto *ED = dyn_cast<EnumDecl>(D))
+        for (const EnumConstantDecl *EC : ED->enumerators())
+          if (EC->getName() == Name) { Out = (int)EC->getInitVal().getExtValue(); return true; }
+    for (const auto &B : RD->bases()) {
+      const CXXRecordDecl *BD = B.getType()->getAsCXXRecordDecl();
+      if (BD && enumVal(BD, Name, Out, depth + 1)) return true;
+    }
+    return false;
+  }
+  bool dims(QualType T, int &R, int &C) {
+    T = T.getNonReferenceType().getCanonicalType();
+    if (T->isDependentType()) return false;
+    const Type *TP = T.getTypePtr();
+    auto It = dimCache.find(TP);
+    if (It != dimCache.end()) { R = It->second.first; C = It->second.second; return R != -999; }
+    const CXXRecordDecl *RD = T->getAsCXXRecordDecl();
+    bool ok = false;
+    if (RD) {
+      std::string QN = RD->getQualifiedNameAsString();
+      if (llvm::StringRef(QN).startswith("Eigen::"))
+        ok = enumVal(RD, "RowsAtCompileTime", R) && enumVal(RD, "ColsAtCompileTime", C);
+    }
+    dimCache[TP] = ok ? std::make_pair(R, C) : std::make_pair(-999, -999);
+    return ok;
+  }
+
+  // ---- template arguments --------------------------------------------------------
+  json::Array targs(const TemplateArgumentList *L) {
+    json::Array A;
+    if (!L) return A;
+    for (const TemplateArgument &TA : L->asArray()) pushArg(A, TA);
+    return A;
+  }
+  void pushArg(json::Array &A, const TemplateArgument &TA) {
+    switch (TA.getKind()) {
+    case TemplateArgument::Integral: A.push_back((int64_t)TA.getAsIntegral().getExtValue()); break;
+    case TemplateArgument::Type: A.push_back(X.typeStr(TA.getAsType())); break;
+    case TemplateArgument::Pack: {
+      json::Array P;
+      for (const TemplateArgument &E : TA.pack_elements()) pushArg(P, E);
+      A.push_back(std::move(P));
+      break;
+    }
+    default: {
+      std::string S;
+      llvm::raw_string_ostream OS(S);
+      TA.print(PrintingPolicy(*X.LO), OS, true);
+      A.push_back(OS.str());
+    }
+    }
+  }
+
+  void calleeInfo(json::Object &O, const FunctionDecl *FD) {
+    if (!FD) return;
+    O["fn"] = X.qualName(FD);
+    O["fid"] = declId(FD);
+    if (const FunctionDecl *P = FD->getTemplateInstantiationPattern()) O["fpat"] = declId(P);
+    if (FD->isNoReturn()) O["noret"] = true;
+    if (const auto *TA = FD->getTemplateSpecializationArgs()) O["targs"] = targs(TA);
+    if (const auto *MD = dyn_cast<CXXMethodDecl>(FD)) {
+      const CXXRecordDecl *RD = MD->getParent();
+      O["cls"] = RD->getQualifiedNameAsString();
+      if (const auto *CTS = dyn_cast<ClassTemplateSpecializationDecl>(RD)) O["clsargs"] = targs(&CTS->getTemplateArgs());
+      if (MD->isConst()) O["cmeth"] = true;
+      if (MD->isStatic()) O["smeth"] = true;
+    }
+    O["inrepo"] = X.inRepo(FD->getLocation());
+  }
+
+  // ---- expressions / statements --------------------------------------------------
+  json::Value expr(const Stmt *S) {
+    if (!S) return nullptr;
+    // transparent wrappers
+    if (const auto *E = dyn_cast<ImplicitCastExpr>(S)) {
+      if (E->getCastKind() == CK_UserDefinedConversion || E->getCastKind() == CK_ConstructorConversion)
+        return expr(E->getSubExpr());
+      return expr(E->getSubExpr());
+    }
+    if (const auto *E = dyn_cast<ExprWithCleanups>(S)) return expr(E->getSubExpr());
+    if (const auto *E = dyn_cast<MaterializeTemporaryExpr>(S)) return expr(E->getSubExpr());
+    if (const auto *E = dyn_cast<CXXBindTemporaryExpr>(S)) return expr(E->getSubExpr());
+    if (const auto *E = dyn_cast<ParenExpr>(S)) return expr(E->getSubExpr());
+    if (const auto *E = dyn_cast<SubstNonTypeTemplateParmExpr>(S)) return expr(E->getReplacement());
+    if (const auto *E = dyn_cast<ConstantExpr>(S)) return expr(E->getSubExpr());
+
+    json::Object O;
+    O["k"] = S->getStmtClassName();
+    O["ln"] = (int64_t)X.line(S->getBeginLoc());
+    const Expr *E = dyn_cast<Expr>(S);
+    if (E) {
+      QualType T = E->getType();
+      if (!T.isNull()) {
+        O["ty"] = typeId(T);
+        int R, C;
+        if (!T->isDependentType() && dims(T, R, C)) O["dim"] = json::Array{R, C};
+        if (!E->isValueDependent() && !E->isTypeDependent() && (T->isIntegralOrEnumerationType()) &&
+            !isa<IntegerLiteral>(E) && !isa<CXXBoolLiteralExpr>(E)) {
+          Expr::EvalResult ER;
+          if (E->EvaluateAsInt(ER, *X.AC, Expr::SE_NoSideEffects)) O["iv"] = (int64_t)ER.Val.getInt().getExtValue();
+        }
+      }
+    }
+    bool genericChildren = true;
+    if (const auto *D = dyn_cast<DeclRefExpr>(S)) {
+      const ValueDecl *VD = D->getDecl();
+      O["name"] = VD->getNameAsString();
+      O["decl"] = declId(VD);
+      O["dk"] = VD->getDeclKindName();
+      if (!isa<ParmVarDecl>(VD) && !(isa<VarDecl>(VD) && cast<VarDecl>(VD)->isLocalVarDecl())) O["qn"] = X.qualName(VD);
+      if (const auto *V = dyn_cast<VarDecl>(VD)) {
+        if (V->hasGlobalStorage()) O["global"] = true;
+        if (V->isStaticLocal()) O["slocal"] = true;
+      }
+      if (const auto *FD = dyn_cast<FunctionDecl>(VD)) calleeInfo(O, FD);
+    } else if (const auto *M = dyn_cast<MemberExpr>(S)) {
+      O["name"] = M->getMemberDecl()->getNameAsString();
+      O["decl"] = declId(M->getMemberDecl());
+      O["arrow"] = M->isArrow();
+      if (const auto *FD = dyn_cast<FunctionDecl>(M->getMemberDecl())) calleeInfo(O, FD);
+      else O["qn"] = X.qualName(M->getMemberDecl());
+    } else if (const auto *C = dyn_cast<CXXOperatorCallExpr>(S)) {
+      O["op"] = getOperatorSpelling(C->getOperator());
+      if (const FunctionDecl *FD = C->getDirectCallee()) calleeInfo(O, FD);
+    } else if (const auto *C = dyn_cast<CallExpr>(S)) {
+      if (const FunctionDecl *FD = C->getDirectCallee()) calleeInfo(O, FD);
+    } else if (const auto *C = dyn_cast<CXXConstructExpr>(S)) {
+      calleeInfo(O, C->getConstructor());
+      if (C->isElidable()) O["elidable"] = true;
+    } else if (const auto *U = dyn_cast<CXXUnresolvedConstructExpr>(S)) {
+      O["tyw"] = X.typeStr(U->getTypeAsWritten());
+    } else if (const auto *U = dyn_cast<UnresolvedLookupExpr>(S)) {
+      O["name"] = U->getName().getAsString();
+      if (U->hasExplicitTemplateArgs()) O["targs_txt"] = tmplArgsText(U->template_arguments());
+    } else if (const auto *U = dyn_cast<UnresolvedMemberExpr>(S)) {
+      O["name"] = U->getMemberName().getAsString();
+      O["implicit"] = U->isImplicitAccess();
+      if (U->hasExplicitTemplateArgs()) O["targs_txt"] = tmplArgsText(U->template_arguments());
+      genericChildren = false;
+      json::Array Ch;
+      if (!U->isImplicitAccess()) Ch.push_back(expr(U->getBase()));
+      O["ch"] = std::move(Ch);
+    } else if (const auto *U = dyn_cast<CXXDependentScopeMemberExpr>(S)) {
+      O["name"] = U->getMember().getAsString();
+      O["implicit"] = U->isImplicitAccess();
+      O["arrow"] = U->isArrow();
+      if (U->hasExplicitTemplateArgs()) O["targs_txt"] = tmplArgsText(U->template_arguments());
+      genericChildren = false;
+      json::Array Ch;
+      if (!U->isImplicitAccess()) Ch.push_back(expr(U->getBase()));
+      O["ch"] = std::move(Ch);
+    } else if (const auto *U = dyn_cast<DependentScopeDeclRefExpr>(S)) {
+      O["name"] = U->getDeclName().getAsString();
+      std::string Q;
+      llvm::raw_string_ostream OS(Q);
+      if (U->getQualifier()) U->getQualifier()->print(OS, PrintingPolicy(*X.LO));
+      O["qual"] = OS.str();
+      if (U->hasExplicitTemplateArgs()) O["targs_txt"] = tmplArgsText(U->template_arguments());
+    } else if (const auto *L = dyn_cast<IntegerLiteral>(S)) {
+      O["v"] = (int64_t)L->getValue().getLimitedValue();
+    } else if (const auto *L = dyn_cast<FloatingLiteral>(S)) {
+      O["v"] = L->getValueAsApproximateDouble();
+      O["txt"] = X.text(L->getSourceRange());
+    } else if (const auto *L = dyn_cast<CXXBoolLiteralExpr>(S)) {
+      O["v"] = L->getValue();
+    } else if (const auto *U = dyn_cast<UnaryOperator>(S)) {
+      O["op"] = UnaryOperator::getOpcodeStr(U->getOpcode()).str();
+      if (U->isPostfix()) O["postfix"] = true;
+    } else if (const auto *B = dyn_cast<BinaryOperator>(S)) {
+      O["op"] = B->getOpcodeStr().str();
+    } else if (const auto *C = dyn_cast<ExplicitCastExpr>(S)) {
+      O["to"] = X.typeStr(C->getTypeAsWritten());
+      O["ck"] = C->getCastKindName();
+      if (isa<CXXConstCastExpr>(C)) O["constcast"] = true;
+      // does this cast drop const from the pointee / referee ?
+      QualType From = C->getSubExpr()->getType(), To = C->getTypeAsWritten();
+      auto pointee = [](QualType Q) { if (Q->isPointerType() || Q->isReferenceType()) return Q->getPointeeType(); return Q; };
+      if ((To->isPointerType() || To->isReferenceType()) && !From.isNull() && !From->isDependentType() && !To->isDependentType()) {
+        QualType FP = C->getSubExpr()->isGLValue() && !From->isPointerType() ? From : pointee(From);
+        if (FP.isConstQualified() && !pointee(To).isConstQualified()) O["dropsconst"] = true;
+      }
+    } else if (const auto *I = dyn_cast<IfStmt>(S)) {
+      genericChildren = false;
+      O["cond"] = expr(I->getCond());
+      O["then"] = expr(I->getThen());
+      O["else"] = expr(I->getElse());
+      if (I->getInit()) O["init"] = expr(I->getInit());
+    } else if (const auto *F = dyn_cast<ForStmt>(S)) {
+      genericChildren = false;
+      O["init"] = expr(F->getInit());
+      O["cond"] = expr(F->getCond());
+      O["inc"] = expr(F->getInc());
+      O["body"] = expr(F->getBody());
+    } else if (const auto *F = dyn_cast<CXXForRangeStmt>(S)) {
+      genericChildren = false;
+      O["var"] = varDecl(F->getLoopVariable());
+      O["range"] = expr(F->getRangeInit());
+      O["body"] = expr(F->getBody());
+    } else if (const auto *W = dyn_cast<WhileStmt>(S)) {
+      genericChildren = false;
+      O["cond"] = expr(W->getCond());
+      O["body"] = expr(W->getBody());
+    } else if (const auto *W = dyn_cast<DoStmt>(S)) {
+      genericChildren = false;
+      O["cond"] = expr(W->getCond());
+      O["body"] = expr(W->getBody());
+    } else if (const auto *R = dyn_cast<ReturnStmt>(S)) {
+      genericChildren = false;
+      O["e"] = expr(R->getRetValue());
+    } else if (const auto *W = dyn_cast<SwitchStmt>(S)) {
+      genericChildren = false;
+      O["cond"] = expr(W->getCond());
+      O["body"] = expr(W->getBody());
+    } else if (const auto *Cs = dyn_cast<CaseStmt>(S)) {
+      genericChildren = false;
+      O["lhs"] = expr(Cs->getLHS());
+      O["sub"] = expr(Cs->getSubStmt());
+    } else if (const auto *Ds = dyn_cast<DefaultStmt>(S)) {
+      genericChildren = false;
+      O["sub"] = expr(Ds->getSubStmt());
+    } else if (const auto *DS = dyn_cast<DeclStmt>(S)) {
+      genericChildren = false;
+      json::Array Ds;
+      for (const Decl *D : DS->decls()) {
+        if (const auto *V = dyn_cast<VarDecl>(D)) Ds.push_back(varDecl(V));
+        else { json::Object OD; OD["k"] = D->getDeclKindName(); Ds.push_back(std::move(OD)); }
+      }
+      O["decls"] = std::move(Ds);
+    } else if (const auto *DA = dyn_cast<CXXDefaultArgExpr>(S)) {
+      genericChildren = false;
+      O["ch"] = json::Array{expr(DA->getExpr())};
+    } else if (const auto *SP = dyn_cast<SizeOfPackExpr>(S)) {
+      if (!SP->isValueDependent()) O["iv"] = (int64_t)SP->getPackLength();
+      O["name"] = SP->getPack()->getNameAsString();
+    } else if (isa<LambdaExpr>(S)) {
+      O["lambda"] = true;
+    }
+    if (genericChildren) {
+      json::Array Ch;
+      for (const Stmt *C : S->children()) Ch.push_back(expr(C));
+      if (!Ch.empty()) O["ch"] = std::move(Ch);
+    }
+    return json::Value(std::move(O));
+  }
+
+  std::string tmplArgsText(llvm::ArrayRef<TemplateArgumentLoc> Args) {
+    std::string S;
+    bool first = true;
+    for (const auto &A : Args) {
+      if (!first) S += ", ";
+      first = false;
+      S += X.text(A.getSourceRange());
+    }
+    return S;
+  }
+
+  json::Value varDecl(const VarDecl *V) {
+    if (!V) return nullptr;
+    json::Object O;
+    O["k"] = "VarDecl";
+    O["name"] = V->getNameAsString();
+    O["decl"] = declId(V);
+    O["ln"] = (int64_t)X.line(V->getLocation());
+    QualType T = V->getType();
+    O["ty"] = typeId(T);
+    int R, C;
+    if (!T->isDependentType() && dims(T, R, C)) O["dim"] = json::Array{R, C};
+    if (V->isStaticLocal()) O["static"] = true;
+    if (T.getNonReferenceType().isConstQualified()) O["constq"] = true;
+    if (T->isReferenceType()) O["ref"] = true;
+    if (V->isConstexpr()) O["constexpr"] = true;
+    if (V->hasInit()) {
+      O["init"] = expr(V->getInit());
+      O["initstyle"] = (int64_t)V->getInitStyle();
+    }
+    return json::Value(std::move(O));
+  }
+
+  json::Value function(const FunctionDecl *F) {
+    json::Object O;
+    O["id"] = declId(F);
+    O["name"] = X.qualName(F);
+    O["short"] = F->getNameAsString();
+    O["file"] = X.relFile(F->getLocation());
+    O["line"] = (int64_t)X.line(F->getLocation());
+    const FunctionDecl *Pat = F->getTemplateInstantiationPattern();
+    bool templ = F->isTemplated() || F->isDependentContext();
+    O["kind"] = templ ? "pattern" : (Pat || isa<ClassTemplateSpecializationDecl>(F->getDeclContext()) || F->isTemplateInstantiation() ? "inst" : "plain");
+    if (Pat) O["pat"] = declId(Pat);
+    else if (const auto *MD = dyn_cast<CXXMethodDecl>(F)) {
+      if (const FunctionDecl *MP = MD->getInstantiatedFromMemberFunction()) O["pat"] = declId(MP);
+    }
+    if (const auto *TA = F->getTemplateSpecializationArgs()) O["targs"] = targs(TA);
+    O["ret"] = typeId(F->getReturnType());
+    if (F->isNoReturn()) O["noret"] = true;
+    if (F->isInlined()) O["inline"] = true;
+    if (F->isDefaulted()) O["defaulted"] = true;
+    if (F->isDeleted()) O["deleted"] = true;
+    O["storage"] = (int64_t)F->getStorageClass();
+    if (const auto *MD = dyn_cast<CXXMethodDecl>(F)) {
+      const CXXRecordDecl *RD = MD->getParent();
+      O["cls"] = RD->getQualifiedNameAsString();
+      O["clsid"] = declId(RD);
+      if (const auto *CTS = dyn_cast<ClassTemplateSpecializationDecl>(RD)) O["clsargs"] = targs(&CTS->getTemplateArgs());
+      if (MD->isConst()) O["const"] = true;
+      if (MD->isStatic()) O["static"] = true;
+      O["access"] = (int64_t)MD->getAccess();
+      if (const auto *CD = dyn_cast<CXXConstructorDecl>(MD)) {
+        O["ctor"] = true;
+        if (CD->isCopyConstructor()) O["copyctor"] = true;
+        if (CD->isMoveConstructor()) O["movector"] = true;
+        if (CD->isDelegatingConstructor()) O["delegating"] = true;
+        json::Array Inits;
+        for (const CXXCtorInitializer *I : CD->inits()) {
+          json::Object IO;
+          if (I->isAnyMemberInitializer()) IO["member"] = I->getAnyMember()->getNameAsString();
+          else if (I->isBaseInitializer()) IO["base"] = X.typeStr(QualType(I->getBaseClass(), 0));
+          else if (I->isDelegatingInitializer()) IO["delegate"] = true;
+          IO["written"] = I->isWritten();
+          IO["init"] = expr(I->getInit());
+          Inits.push_back(std::move(IO));
+        }
+        O["inits"] = std::move(Inits);
+      }
+    }
+    json::Array Ps;
+    for (const ParmVarDecl *P : F->parameters()) {
+      json::Object PO;
+      PO["name"] = P->getNameAsString();
+      PO["decl"] = declId(P);
+      PO["ty"] = typeId(P->getType());
+      if (P->hasDefaultArg() && !P->hasUninstantiatedDefaultArg() && !P->hasUnparsedDefaultArg()) PO["hasdef"] = true;
+      Ps.push_back(std::move(PO));
+    }
+    O["params"] = std::move(Ps);
+    O["body"] = expr(F->getBody());
+    return json::Value(std::move(O));
+  }
+
+  json::Value record(const CXXRecordDecl *RD) {
+    json::Object O;
+    O["id"] = declId(RD);
+    O["name"] = RD->getQualifiedNameAsString();
+    O["file"] = X.relFile(RD->getLocation());
+    O["line"] = (int64_t)X.line(RD->getLocation());
+    O["kind"] = RD->isDependentContext() ? "pattern" : (isa<ClassTemplateSpecializationDecl>(RD) ? "inst" : "plain");
+    if (const auto *CTS = dyn_cast<ClassTemplateSpecializationDecl>(RD)) {
+      O["targs"] = targs(&CTS->getTemplateArgs());
+      O["explicit_spec"] = CTS->isExplicitSpecialization();
+    }
+    if (const auto *PS = dyn_cast<ClassTemplatePartialSpecializationDecl>(RD)) {
+      O["partial"] = true;
+      std::string S;
+      llvm::raw_string_ostream OS(S);
+      printTemplateArgumentList(OS, PS->getTemplateArgs().asArray(), PrintingPolicy(*X.LO));
+      O["partial_args"] = OS.str();
+    }
+    json::Array Bases;
+    for (const auto &B : RD->bases()) Bases.push_back(X.typeStr(B.getType()));
+    O["bases"] = std::move(Bases);
+    json::Array Fields, Methods, Usings, SVars;
+    for (const Decl *D : RD->decls()) {
+      if (D->isImplicit()) continue;
+      if (const auto *FD = dyn_cast<FieldDecl>(D)) {
+        json::Object FO;
+        FO["name"] = FD->getNameAsString();
+        FO["ty"] = typeId(FD->getType());
+        FO["mutable"] = FD->isMutable();
+        FO["constq"] = FD->getType().isConstQualified();
+        FO["access"] = (int64_t)FD->getAccess();
+        FO["ln"] = (int64_t)X.line(FD->getLocation());
+        Fields.push_back(std::move(FO));
+      } else if (const auto *VD = dyn_cast<VarDecl>(D)) {
+        json::Object VO;
+        VO["name"] = VD->getNameAsString();
+        VO["ty"] = typeId(VD->getType());
+        VO["constq"] = VD->getType().isConstQualified();
+        VO["constexpr"] = VD->isConstexpr();
+        VO["ln"] = (int64_t)X.line(VD->getLocation());
+        SVars.push_back(std::move(VO));
+      } else if (const auto *US = dyn_cast<UsingDecl>(D)) {
+        json::Object UO;
+        UO["name"] = US->getNameAsString();
+        UO["access"] = (int64_t)US->getAccess();
+        Usings.push_back(std::move(UO));
+      } else if (const auto *UU = dyn_cast<UnresolvedUsingValueDecl>(D)) {
+        json::Object UO;
+        UO["name"] = UU->getNameAsString();
+        UO["access"] = (int64_t)UU->getAccess();
+        Usings.push_back(std::move(UO));
+      } else {
+        const FunctionDecl *FD = dyn_cast<FunctionDecl>(D);
+        if (const auto *FT = dyn_cast<FunctionTemplateDecl>(D)) FD = FT->getTemplatedDecl();
+        if (const auto *MD = dyn_cast_or_null<CXXMethodDecl>(FD)) {
+          json::Object MO;
+          MO["name"] = MD->getNameAsString();
+          MO["fid"] = declId(MD);
+          MO["access"] = (int64_t)MD->getAccess();
+          MO["const"] = MD->isConst();
+          MO["static"] = MD->isStatic();
+          MO["ctor"] = isa<CXXConstructorDecl>(MD);
+          MO["dtor"] = isa<CXXDestructorDecl>(MD);
+          MO["template"] = isa<FunctionTemplateDecl>(D);
+          MO["defaulted"] = MD->isDefaulted();
+          MO["ln"] = (int64_t)X.line(MD->getLocation());
+          MO["ret"] = typeId(MD->getReturnType());
+          json::Array PT;
+          for (const ParmVarDecl *P : MD->parameters()) PT.push_back(typeId(P->getType()));
+          MO["ptypes"] = std::move(PT);
+          Methods.push_back(std::move(MO));
+        }
+      }
+    }
+    O["fields"] = std::move(Fields);
+    O["methods"] = std::move(Methods);
+    O["usings"] = std::move(Usings);
+    O["svars"] = std::move(SVars);
+    return json::Value(std::move(O));
+  }
+};
+
+struct V : RecursiveASTVisitor<V> {
+  Ctx &X;
+  Dumper &D;
+  bool patternsOnly;
+  json::Array funcs, classes, vars;
+  std::set<const Decl *> seenF, seenC;
+  V(Ctx &X, Dumper &D, bool patternsOnly) : X(X), D(D), patternsOnly(patternsOnly) {}
+  bool shouldVisitTemplateInstantiations() const { return !patternsOnly; }
+  bool shouldVisitImplicitCode() const { return false; }
+
+  bool VisitFunctionDecl(FunctionDecl *F) {
+    if (!F->doesThisDeclarationHaveABody() && !F->isDefaulted()) return true;
+    if (!X.inRepo(F->getLocation())) return true;
+    if (!seenF.insert(F).second) return true;
+    if (F->isDefaulted() && !F->doesThisDeclarationHaveABody() && !isa<CXXConstructorDecl>(F)) return true;
+    funcs.push_back(D.function(F));
+    return true;
+  }
+  bool VisitCXXRecordDecl(CXXRecordDecl *RD) {
+    if (!RD->isThisDeclarationADefinition() || !X.inRepo(RD->getLocation())) return true;
+    if (RD->isLambda()) return true;
+    if (!seenC.insert(RD).second) return true;
+    classes.push_back(D.record(RD));
+    return true;
+  }
+  bool VisitVarDecl(VarDecl *VD) {
+    if (!X.inRepo(VD->getLocation())) return true;
+    if (!VD->hasGlobalStorage() || VD->isStaticLocal() || isa<ParmVarDecl>(VD)) return true;
+    if (!VD->isThisDeclarationADefinition() && !VD->isStaticDataMember()) return true;
+    json::Object O = X.loc(VD->getLocation());
+    O["name"] = X.qualName(VD);
+    O["decl"] = D.declId(VD);
+    O["ty"] = D.typeId(VD->getType());
+    O["constq"] = VD->getType().isConstQualified();
+    O["constexpr"] = VD->isConstexpr();
+    O["member"] = VD->isStaticDataMember();
+    O["templated"] = VD->isTemplated() || VD->getDeclContext()->isDependentContext();
+    O["def"] = VD->isThisDeclarationADefinition() == VarDecl::Definition;
+    if (VD->hasInit()) O["init"] = D.expr(VD->getInit());
+    vars.push_back(std::move(O));
+    return true;
+  }
+};
+
+}  // namespace
+
+static void runDump(Ctx &X, json::Object &Root, bool patternsOnly) {
+  Dumper D(X);
+  V v(X, D, patternsOnly);
+  v.TraverseDecl(X.AC->getTranslationUnitDecl());
+  Root["functions"] = std::move(v.funcs);
+  Root["classes"] = std::move(v.classes);
+  Root["vars"] = std::move(v.vars);
+  Root["types"] = std::move(D.types);
+}
+
+void msa::runFuncs(Ctx &X, json::Object &Root) { runDump(X, Root, false); }
+void msa::runPatterns(Ctx &X, json::Object &Root) { runDump(X, Root, true); }
